@@ -241,6 +241,47 @@ impl C16 {
         out.fail(env, viol("limit", "yearly_fortune", case, &k, format!("{} fortune {}", desc, j), format!("{:?}", exp), format!("{:?}", fv)));
       }
     }
+    // fortune objects reached by a chain of steps, every view of the source read before each step (a view memoised in
+    // the value must not travel with it), equal the directly constructed ones
+    if ge.0 + 95 <= 9999 {
+      let steps: [isize; 6] = match (i as i64 + s) % 3 { 0 => [1, 1, -1, 3, 2, -4], 1 => [2, -1, 5, 1, -3, 1], _ => [1, 4, -2, 1, 1, 1] };
+      let walked = guard(|| {
+        let cl = ChildLimit::from_solar_time(bt, gender);
+        let mut f = cl.get_start_fortune();
+        let mut d = cl.get_start_decade_fortune();
+        let mut v = vec![];
+        let mut t = 0i64;
+        for st in steps {
+          let _ = (f.get_sixty_cycle(), f.get_name(), f.get_age(), f.get_sixty_cycle_year());
+          let _ = (d.get_sixty_cycle(), d.get_name(), d.get_start_age(), d.get_end_age(), d.get_start_sixty_cycle_year(), d.get_end_sixty_cycle_year(), d.get_start_fortune().get_sixty_cycle());
+          f = f.next(st);
+          d = d.next(st);
+          t += st as i64;
+          v.push((t, (f.get_sixty_cycle().get_index() as i64, f.get_age() as i64, f.get_sixty_cycle_year().get_year() as i64, f.get_name()), (d.get_sixty_cycle().get_index() as i64, d.get_start_age() as i64, d.get_end_age() as i64, d.get_start_sixty_cycle_year().get_year() as i64, d.get_end_sixty_cycle_year().get_year() as i64, d.get_start_fortune().get_sixty_cycle().get_index() as i64, d.get_start_fortune().get_age() as i64, d.get_name())));
+        }
+        v
+      });
+      match walked {
+        Err(e) => {
+          out.fail(env, viol("limit", "stepped_fortunes_panic", case, &k, desc.clone(), "fortunes reached by stepping".into(), e));
+        }
+        Ok(v) => {
+          out.class("fortune_walks");
+          for (t, fv, dv) in v {
+            let ef = ((hp + sign * (base_age + t)).rem_euclid(60), base_age + t, ge.0 + t, pillar_name((hp + sign * (base_age + t)).rem_euclid(60)));
+            if fv != ef {
+              out.fail(env, viol("limit", "stepped_yearly_fortune", case, &k, format!("{} fortune reached by steps {:?} (views read before each step), now at index {}", desc, steps, t), format!("{:?}", ef), format!("{:?}", fv)));
+              break;
+            }
+            let ed = ((mp + sign * (t + 1)).rem_euclid(60), base_age + 10 * t, base_age + 10 * t + 9, ge.0 + 10 * t, ge.0 + 10 * t + 9, (hp + sign * (base_age + 10 * t)).rem_euclid(60), base_age + 10 * t, pillar_name((mp + sign * (t + 1)).rem_euclid(60)));
+            if dv != ed {
+              out.fail(env, viol("limit", "stepped_decade_fortune", case, &k, format!("{} decade reached by steps {:?} (views read before each step), now at index {}", desc, steps, t), format!("{:?}", ed), format!("{:?}", dv)));
+              break;
+            }
+          }
+        }
+      }
+    }
     // the lunar-year accessors count calendar years from the lunar year of the birth date in the same way
     if ge.0 + 29 <= 9998 {
       if let Ok((by, ey, dec, yf, lim_g, df_cl, f_cl)) = guard(|| {
